@@ -23,6 +23,10 @@ struct set_node *vp_conf_alloc(size_t size, int type);
 
 #include "src/config.c"
 
+/* code included after this wrapper (src/log.c, the IAuth modules) gets the original macro back */
+#undef set_node_alloc
+#define set_node_alloc(SIZE) ((struct set_node*)xmalloc(sizeof(struct set_node) + (SIZE)))
+
 struct vp_cstr_elt { struct set_node node; struct conf_node_string n; };
 struct vp_cina_elt { struct set_node node; struct conf_node_inaddr n; };
 struct vp_clst_elt { struct set_node node; struct conf_node_string_list n; };
